@@ -242,6 +242,10 @@ package token
 //@   invariant loop 1 building: fresh(ts) && !isnil(ts) && held(state.mu) && (forall k string :: has(ts, k) ==> ts[k] != nil)
 //@   -- C16: a failed load forgets the table (so that nothing stale is honoured)
 //@   ensures failed-forgets: result1 != nil ==> isnil(state.tokens)
+//@   -- C16 (revocation is final): when the file cannot be examined or opened - in particular when it has been removed - nothing of the old
+//@   -- table is kept or reported
+//@   ensures no-file-forgets: state.filename != "" && second(callresult("Stat", 1)) != nil ==> isnil(state.tokens) && result0 == ""
+//@   ensures unopened-forgets: state.filename != "" && second(callresult("Stat", 1)) == nil && second(callresult("Open", 1)) != nil && !callresult("Equal", 1) ==> isnil(state.tokens)
 //@   ensures step: tablestep(state)
 //@   ensures table: tablewf(state)
 //@
